@@ -185,6 +185,17 @@ def length_sweep(binpath, res):
     for tok in ("{payload_len}", "{type_len}", "{}", "{0}", "{type}", "%s", "%d", "$1", "{payload_len}1", "1{payload_len}", "{{}}", "\\0", "{payload}"):
         for pay in (b"", b"abc", b"0123456789ab"):
             pairs.append([tok, pay.hex()])
+    # payloads that are themselves (prefixes / extensions of) encodings, of the same type and of another: an envelope
+    # inside an envelope is an ordinary payload
+    nested = 0
+    for t in ("link", "", "a b", "https://in-toto.io/Statement/v0.1", "é"):
+        for inner_t in (t, "link", "layout", ""):
+            for inner_p in (b"", b"hello", b"DSSEv1 ", ref_pack(inner_t, b"x")):
+                inner = ref_pack(inner_t, inner_p)
+                for pay in (inner, inner + b" tail", inner[:-1], b" " + inner, inner + inner, b"DSSEv1 ", b"DSSEv1 4 link 5 hello", inner.lower()):
+                    pairs.append([t, pay.hex()])
+                    nested += 1
+    res.classes["payload_is_itself_an_encoding"] += nested
     # lengths whose decimal form has eight digits
     pairs.append(["link", (b"z" * 10_000_000).hex()])
     pairs.append(["t" * 10_000_001, b"p".hex()])
@@ -252,6 +263,6 @@ def main(ctx):
              "random decoder inputs with huge/overflowing/signed/malformed length fields; complete small scopes; "
              "non-trivial = pair with a non-empty component or any decoder input; distinct by SHA-256",
         assumptions=["the DSSE v1 PAE definition as transliterated in ref_pack()"],
-        required=["random_pair", "random_frame:ok", "random_frame:err", "small_scope_pairs", "length_sweep_pairs", "enum_decode:ok",
+        required=["random_pair", "random_frame:ok", "random_frame:err", "small_scope_pairs", "length_sweep_pairs", "payload_is_itself_an_encoding", "enum_decode:ok",
                   "enum_decode:err"],
         min_evals=50000)
